@@ -4,7 +4,7 @@ import Driver.C15
 import Norad.Model.Plist
 /-!
 Driver module for C10.
-`C10 det <fmt> <G> <K> <L> <F> <O> <B> <X> => ok d=<#dumps> t=<#trees> sorted=<0|1> <G'> <K'> T:<hex> | err d=<n>`
+`C10 det <fmt> <G> <K> <L> <F> <O> <B> <X> => ok d=<#dumps> t=<#trees> sorted=<0|1> p=<#prestate trees> <G'> <K'> T:<hex> | err d=<n>`
 `… <X> <E>`: `<E>` = `E:key=content,…` data-store inserts applied to every loaded font before saving.
 `C10 lib <V1> <V2> => eq=<0|1> same=<0|1> lg=<0|1> W1:<V> W2:<V>`: two fonts built through the API whose
 libs are V1 / V2 (`<V>` = `i<int>` | `s<hex>` | `d(<hexkey>=<V>,..)` | `a(<V>,..)`).
@@ -154,12 +154,13 @@ def run (inp obs : List String) : Verdict :=
         | .ok (.error _) => "err"
         | .ok (.ok (g', k')) => "ok " ++ renderGroups g' ++ " " ++ renderKerning k' ++ " T:" ++ hexOfStr feats
       let implOut := match obs with
-        | ["ok", _, _, _, g, k, t] => "ok " ++ g ++ " " ++ k ++ " " ++ t
+        | ["ok", _, _, _, _, g, k, t] => "ok " ++ g ++ " " ++ k ++ " " ++ t
         | "err" :: _ => "err"
         | _ => " ".intercalate obs
       let d := field "d=" obs
       let t := field "t=" obs
       let srt := field "sorted=" obs
+      let pre := field "p=" obs
       let xbits := ((xTok.drop 2).toString.toNat?).getD 0
       let editKeys := (parseEditKeys eTok).getD []
       let storeKeys := editKeys ++ (if (xbits / 2) % 2 == 1 then diskDataKeys else [])
@@ -169,7 +170,8 @@ def run (inp obs : List String) : Verdict :=
         (match obs with
          | "ok" :: _ => (if t == some "1" then []
                          else [if alias then "save-nondeterministic:store-keys-alias" else "save-nondeterministic"]) ++
-                        (if srt == some "1" then [] else ["written-plist-unsorted"])
+                        (if srt == some "1" then [] else ["written-plist-unsorted"]) ++
+                        (if pre == some "1" then [] else ["save-depends-on-target-prestate"])
          | "err" :: _ => []
          | _ => ["panic-or-unknown"])
       let g := g?.getD []
